@@ -96,7 +96,7 @@ def build_script(items, maxr, chain, lifecycle=(), ops=(), nested=None):
                 merged = True
         if not merged:
             script.insert(0, {"inc": inc, "on": on, "do": [act]})
-    return {"max_restarts": maxr, "chain": chain, "script": script, "ops": [list(o) for o in ops]}
+    return {"max_restarts": maxr, "chain": chain, "script": script, "ops": [list(o) for o in ops], "decoy": chain >= 2 and (n + maxr) % 2 == 0}
 
 
 class ProcPart(Part):
